@@ -45,3 +45,23 @@ package failsafe
 //@   loop 1 invariant[count] scw.changeCount == gRunLen
 //@   loop 1 invariant[start] scw.lastState != scw.currentStableState ==> scw.changeStart >= gRunStart
 //@   loop 1 invariant[cool]  now() >= gCoolUntil
+
+// ---------------------------------------------------------------- construction: the watcher starts healthy with the configured thresholds
+//@ func NewStateChangeWatcher
+//@   prop C20
+//@   allocates StateChangeWatcher
+//@   modifies nothing
+//@   ensures[starts-healthy] result != nil && result.lastState && result.currentStableState && result.changeCount == 0 && !result.changeTriggered
+//@   ensures[configured-thresholds] result.config.ConsecutiveN == config.ConsecutiveN && result.config.MinStablePeriod == config.MinStablePeriod && result.config.CooldownPeriod == config.CooldownPeriod && result.config.MinTimeBetweenCalls == config.MinTimeBetweenCalls && result.clock == clock
+
+// the diagnosis fail-safe takes each threshold from its own setting (environment getters: deterministic observers)
+//@ pure environment.GetDiagnosisFailsafeMinTimeBetweenCalls
+//@ pure environment.GetDiagnosisFailsafeConsecutiveN
+//@ pure environment.GetDiagnosisFailsafeMinStablePeriod
+//@ pure environment.GetDiagnosisFailsafeCooldownPeriod
+//@ func NewDiagnosisFailsafeStateChangeWatcher
+//@   prop C20
+//@   allocates StateChangeWatcher
+//@   modifies nothing
+//@   ensures[each-threshold-from-its-own-setting] result1 == nil ==> result0 != nil && result0.config.ConsecutiveN == environment.GetDiagnosisFailsafeConsecutiveN() && result0.config.MinStablePeriod == environment.GetDiagnosisFailsafeMinStablePeriod() && result0.config.CooldownPeriod == environment.GetDiagnosisFailsafeCooldownPeriod() && result0.config.MinTimeBetweenCalls == environment.GetDiagnosisFailsafeMinTimeBetweenCalls()
+//@   ensures[starts-healthy] result1 == nil ==> result0.lastState && result0.currentStableState && result0.changeCount == 0
